@@ -3,6 +3,7 @@
 TLC's behaviours on the real hotxlfp.Emitter / hotxlfp.Parser, random longer behaviours,
 all call logs validated by TLC against Trace_C20."""
 import functools
+import hashlib
 import json
 import os
 import random
@@ -243,32 +244,37 @@ def main(tier, replay=None):
     run.extra['mechanism_variant_without_once_guard_refuted'] = 'OnceAtMostOnce' in r2.invariant_violated
     if not run.extra['mechanism_variant_without_once_guard_refuted']:
         raise core.MachineryError('mechanism variant not refuted:\n' + r2.out[-1500:])
-    # 3. S2C: replay TLC's behaviours
+    # 3. S2C: replay TLC's behaviours (read as a stream: the thorough model exports millions; a seeded reservoir sample of
+    #    the relevant ones is replayed)
+    rng = random.Random(run.seed)
+    limit = 12000 if quick else 60000
     cases = []
     seen = set()
+    nrel = 0
     for ln in open(cf):
         ln = ln.strip()
         if not ln:
             continue
-        c = json.loads(json.loads(ln))
-        key = json.dumps(c, sort_keys=True)
-        if key in seen:
+        k = hashlib.sha1(ln.encode()).digest()[:8]
+        if k in seen:
             continue
-        seen.add(key)
+        seen.add(k)
+        c = json.loads(json.loads(ln))
         case = {'hist': c['hist'],
-                'script': {str(i + 1): s for i, s in enumerate(c['script']) if s},
+                'script': {str(i + 1): sc for i, sc in enumerate(c['script']) if sc},
                 'max_depth': 1, 'target': 'Emitter'}
-        if relevant(case):
+        if not relevant(case):
+            continue
+        nrel += 1
+        if len(cases) < limit:
             cases.append(case)
+        else:
+            j = rng.randrange(nrel)
+            if j < limit:
+                cases[j] = case
     run.extra['tlc_behaviours_exported'] = len(seen)
-    run.extra['tlc_behaviours_relevant'] = len(cases)
-    rng = random.Random(run.seed)
-    limit = 12000 if quick else 120000
-    if len(cases) > limit:
-        cases = rng.sample(cases, limit)
-        run.exhaustive = False
-    else:
-        run.exhaustive = True
+    run.extra['tlc_behaviours_relevant'] = nrel
+    run.exhaustive = nrel <= limit
     run.extra['tlc_behaviours_replayed'] = len(cases)
     for i, c in enumerate(cases):
         if i % 3 == 2:      # callbacks that are bound methods of host objects (equal, not identical, from access to access)
